@@ -700,7 +700,7 @@ impl<'r> SGen<'r> {
             return;
         }
         self.feat("stack");
-        let nslots = (cx.frame_avail / 8).min(12);
+        let nslots = (cx.frame_avail / 8).min(if self.rng.chance(1, 4) { 64 } else { 12 });
         let k = self.rng.range(1, nslots) as i16;
         if cx.slots.contains(&k) && self.rng.chance(1, 2) {
             // load (any width inside the slot)
@@ -785,7 +785,7 @@ impl<'r> SGen<'r> {
             return;
         }
         self.feat("loop");
-        let n = self.rng.range(1, 6) as i32;
+        let n = if self.rng.chance(1, 12) { self.rng.range(100, 3000) as i32 } else { self.rng.range(1, 6) as i32 };
         let top = self.b.label();
         self.b.i(MOV64_IMM, 9, 0, 0, n);
         self.b.place(top);
@@ -920,7 +920,7 @@ pub fn gen_struct(rng: &mut Rng, opts: &StructOpts) -> (Case, Vec<&'static str>)
     let pkt: Vec<u8> = if kind == Kind::NoData {
         Vec::new()
     } else {
-        let len = *rng.pick(&[8usize, 16, 17, 33, 64, 128]);
+        let len = if rng.chance(1, 3) { rng.range(8, 300) as usize } else { *rng.pick(&[8usize, 16, 17, 33, 64, 128]) };
         rng.bytes(len)
     };
     let offs = *rng.pick(&[(0usize, 8usize), (8, 0), (0x40, 0x50), (0x50, 0x40), (16, 32)]);
@@ -934,6 +934,13 @@ pub fn gen_struct(rng: &mut Rng, opts: &StructOpts) -> (Case, Vec<&'static str>)
             if !helpers.iter().any(|(i, _)| *i == id) {
                 helpers.push((id, rng.below(8) as usize));
             }
+        }
+    }
+    if opts.allow_helpers && rng.chance(1, 25) {
+        // a large helper table (ids 100..100+N): the program calls a few of them
+        let n = rng.range(100, 600) as u32;
+        for id in 100..100 + n {
+            helpers.push((id, (id % 8) as usize));
         }
     }
     loop {
@@ -1036,7 +1043,7 @@ pub fn gen_struct(rng: &mut Rng, opts: &StructOpts) -> (Case, Vec<&'static str>)
             c.calc = opts.calc.clone();
             c.end_aligned = g.rng.chance(1, 2);
             if kind == Kind::Mbuff && !mbuff_empty {
-                let ml = *g.rng.pick(&[16usize, 24, 64]);
+                let ml = if g.rng.chance(1, 3) { g.rng.range(16, 120) as usize } else { *g.rng.pick(&[16usize, 24, 64]) };
                 c.mbuff = g.rng.bytes(ml);
             }
             let mut cls = String::from("struct");
@@ -1062,7 +1069,61 @@ pub fn gen_long(rng: &mut Rng, n: usize, variant: u64) -> Case {
         }
     };
     let class;
-    match variant % 5 {
+    match variant % 6 {
+        5 => {
+            // mixed instruction kinds scattered over the whole length (position-dependent behaviour)
+            class = "long/mixed";
+            v.push(Insn::new(MOV64_IMM, 0, 0, 0, 7));
+            v.push(Insn::new(MOV64_IMM, 1, 0, 0, 1));
+            v.push(Insn::new(STDW, 10, 0, -8, 5));
+            v.push(Insn::new(STDW, 10, 0, -264, 9));
+            while v.len() + 16 < n {
+                match rng.below(40) {
+                    0 => {
+                        v.push(Insn::new(STDW, 10, 0, -8, (rng.next() & 0xffff) as i32));
+                        v.push(Insn::new(LDXDW, 2, 10, -8, 0));
+                        v.push(Insn::new(ADD64_REG, 0, 2, 0, 0));
+                    }
+                    1 => {
+                        v.push(Insn::new(LDDW, 3, 0, 0, rng.next() as i32));
+                        v.push(Insn::new(0, 0, 0, 0, rng.next() as i32));
+                        v.push(Insn::new(XOR64_REG, 0, 3, 0, 0));
+                    }
+                    2 => {
+                        v.push(Insn::new(MOV32_REG, 4, 0, 0, 0));
+                        v.push(Insn::new(ADD64_REG, 0, 4, 0, 0));
+                    }
+                    3 => {
+                        v.push(Insn::new(MOV64_REG, 5, 0, 0, 0));
+                        v.push(Insn::new(BE, 5, 0, 0, *rng.pick(&[16, 32, 64])));
+                        v.push(Insn::new(XOR64_REG, 0, 5, 0, 0));
+                    }
+                    4 => {
+                        let sk = rng.range(1, 4) as i16;
+                        let opc = *rng.pick(&[JEQ_IMM, JNE_IMM, 0x2d, 0x6d, 0xa5, 0x16, 0x5e]);
+                        v.push(Insn::new(opc, 0, 1, sk, (rng.next() & 0xff) as i32));
+                        for _ in 0..sk {
+                            v.push(Insn::new(ADD64_IMM, 0, 0, 0, 1000));
+                        }
+                    }
+                    5 => {
+                        v.push(Insn::new(XADD_DW, 10, 1, -264, 0));
+                        v.push(Insn::new(LDXW, 2, 10, -264, 0));
+                        v.push(Insn::new(ADD64_REG, 0, 2, 0, 0));
+                    }
+                    6 => {
+                        v.push(Insn::new(0x3f, 0, 1, 0, 0)); // div64 r0, r1 (r1 = 1)
+                        v.push(Insn::new(0x27, 0, 0, 0, 3));
+                    }
+                    7 => {
+                        v.push(Insn::new(0x67, 0, 0, 0, 1)); // lsh64 r0, 1
+                        v.push(Insn::new(0xc7, 0, 0, 0, 1)); // arsh64 r0, 1
+                    }
+                    _ => v.push(Insn::new(ADD64_IMM, 0, 0, 0, (rng.next() & 0xf) as i32)),
+                }
+            }
+            v.push(Insn::new(EXIT, 0, 0, 0, 0));
+        }
         4 => {
             // local calls and helper-free returns located beyond pc 65535 (return address / call
             // target arithmetic at high pcs), forward and backward
